@@ -22,6 +22,8 @@ Section T.
 Variable H : Z -> Z -> Z.
 Variable fh : Z -> Z.
 Hypothesis H_inj : forall a b a' b', H a b = H a' b' -> a = a' /\ b = b'.
+Variable parent : Z -> Z.
+Variable g : Z.
 Variable p : Z.
 Variable c : lcfg.
 Variable tfilt : Z -> Z.
@@ -30,7 +32,7 @@ Notation thdrs := (thdrs H fh).
 Notation thd := (thd H fh).
 Notation tcps := (tcps H fh).
 Notation committed_true := (committed_true H fh).
-Notation linv := (linv H fh p c).
+Notation linv := (linv H fh parent g p c).
 
 Lemma thd0 bl : bl <> [] -> zlen bl < 1000000 -> thd bl 0 = H (fh (default 0 (head bl))) 0.
 Proof.
@@ -64,32 +66,32 @@ Proof.
 Qed.
 
 Lemma lstep_inv s e :
-  linv s -> wf_ev s e ->
+  linv s -> wf_ev parent s e ->
   match e with ERound d => hon_round H fh p c tfilt s d | _ => True end ->
   l_flag (lstep H c s e) = 0 -> linv (lstep H c s e).
 Proof.
   intros Hinv Hwf Hhon Hflag. destruct e as [h xs syn|q|q|d]; cbn [lstep] in *.
-  - destruct Hinv as [[Hnd Hlen] Htrue Hgen Hnb Hcb Hcache Hleg Hcp Hphase].
-    destruct Hwf as [Hh Hwf].
-    destruct (chain_event_true (l_a s) h xs Hh (proj2 Hlen) Htrue) as [Ht' Hhead].
-    constructor; cbn; try done.
+  - destruct Hinv as [[Hnd Hlen] Hpar Hhead Htrue Hgen Hnb Hcb Hcache Hleg Hcp Hphase].
+    destruct Hwf as (Hh & Hwf & Hpar').
+    destruct (chain_event_true (l_a s) h xs Hh (proj2 Hlen) Htrue) as [Ht' Hhead'].
+    constructor; cbn; try done; [by rewrite <- Hhead|].
     assert (Hne : abl (l_a s) <> []) by (intros E; rewrite E in Hlen; unfold zlen in Hlen; cbn in Hlen; lia).
     assert (Hne' : abl (chain_event (l_a s) h xs) <> []).
-    { intros E. rewrite E in Hhead. by destruct (abl (l_a s)). }
-    change (bl (arollback (of2 (l_a s)) h) ++ xs) with (abl (chain_event (l_a s) h xs)). rewrite Hgen. rewrite (thd0 _ Hne (proj2 Hlen)), (thd0 _ Hne' (proj2 (proj2 Hwf))). by rewrite Hhead.
+    { intros E. rewrite E in Hhead'. by destruct (abl (l_a s)). }
+    change (bl (arollback (of2 (l_a s)) h) ++ xs) with (abl (chain_event (l_a s) h xs)). rewrite Hgen. rewrite (thd0 _ Hne (proj2 Hlen)), (thd0 _ Hne' (proj2 (proj2 Hwf))). by rewrite Hhead'.
   - destruct (mem q (l_banned s) || mem q (l_conn s)) eqn:E; [done|].
-    destruct Hinv as [Hch Htrue Hgen Hnb Hcb Hcache Hleg Hcp Hphase]. constructor; cbn; try done.
+    destruct Hinv as [Hch Hpar Hhead Htrue Hgen Hnb Hcb Hcache Hleg Hcp Hphase]. constructor; cbn; try done.
     intros q' Hq'. apply in_app_or in Hq' as [Hq'|[<-|[]]]; [by apply Hcb|].
     apply orb_false_iff in E as [E _]. by apply mem_false.
-  - destruct Hinv as [Hch Htrue Hgen Hnb Hcb Hcache Hleg Hcp Hphase]. constructor; cbn; try done.
+  - destruct Hinv as [Hch Hpar Hhead Htrue Hgen Hnb Hcb Hcache Hleg Hcp Hphase]. constructor; cbn; try done.
     intros q' Hq'. apply filter_In in Hq' as [Hq' _]. by apply Hcb.
   - destruct (round H c s d) as [s' out] eqn:Er. cbn [fst] in *.
-    by apply (round_inv H fh H_inj p c tfilt s d s' out).
+    by apply (round_inv H fh H_inj parent g p c tfilt s d s' out).
 Qed.
 
 (* the hypotheses along a run *)
 Definition ev_ok (s : lstate) (e : lev) : Prop :=
-  wf_ev s e /\ match e with ERound d => hon_round H fh p c tfilt s d | _ => True end.
+  wf_ev parent s e /\ match e with ERound d => hon_round H fh p c tfilt s d | _ => True end.
 
 Theorem lrun_inv evs : forall s,
   linv s -> hon_run H p c s evs ev_ok -> l_flag (lrun H c s evs) = 0 -> linv (lrun H c s evs).
@@ -100,118 +102,78 @@ Proof.
   apply lstep_inv; try done. by apply (lrun_flag_zero H c evs).
 Qed.
 
-(* ---------- freshness ---------- *)
-(* the lists were fetched for the present chain, or for a shorter one *)
-Definition fresh (s : lstate) : Prop :=
-  l_cache s = [] \/ l_cache_bl s = abl (l_a s) \/ zlen (l_cache_bl s) < zlen (abl (l_a s)).
-
-Lemma min_cp_le cps q l : In (q, l) cps -> min_checkpoint_height cps <= u32 (zlen l * INTERVAL).
+(* ---------- the cached lists are never stale ---------- *)
+(* With the repaired re-query test the lists are used again only for the
+   stop hash they were fetched for; a hash names one chain, so the ghost
+   flag is never set. *)
+Lemma stale_flag_clear s :
+  linv s -> c_height_only c = false -> INTERVAL <= tipH s ->
+  stale_flag c s (tipH s) (refetch_cond c s (tipH s) (tipX s)) = l_flag s.
 Proof.
-  intros Hin. unfold min_checkpoint_height. destruct cps as [|c0 r] eqn:E; [destruct Hin|]. rewrite <- E in *. clear E.
-  assert (Hg : forall (xs : list (Z * list Z)) acc,
-             fold_left (fun m p0 => Z.min m (u32 (zlen (snd p0) * INTERVAL))) xs acc <= acc /\
-             (In (q, l) xs -> fold_left (fun m p0 => Z.min m (u32 (zlen (snd p0) * INTERVAL))) xs acc <= u32 (zlen l * INTERVAL))).
-  { induction xs as [|x xs IH]; intros acc; cbn [fold_left]; [split; [lia|intros []]|].
-    destruct (IH (Z.min acc (u32 (zlen (snd x) * INTERVAL)))) as [I1 I2]. split; [lia|].
-    intros [->|Hx]; [cbn [snd] in *; lia|by apply I2]. }
-  by apply Hg.
+  intros Hinv Ho Ht. unfold stale_flag.
+  destruct (refetch_cond c s (tipH s) (tipX s)) eqn:Er; [done|]. cbn [negb andb].
+  destruct (refetch_false c s _ _ Er) as [Em Hst]. specialize (Hst Ho).
+  unfold best in Hst. rewrite (li_cp _ _ _ _ _ _ _ Hinv) in Hst. cbn [snd] in Hst.
+  destruct (li_cache _ _ _ _ _ _ _ Hinv) as [Hc|(_ & Hl1 & Hnd & Hpar & Hhd & Hcs)].
+  { rewrite Hc in Em. cbn in Em. unfold INTERVAL in *. lia. }
+  specialize (Hcs Ho). destruct (li_chain _ _ _ _ _ _ _ Hinv) as [Hnd' Hlen'].
+  assert (Heq : l_cache_bl s = abl (l_a s)).
+  { apply (chain_determined parent g); try done.
+    - exact (li_parent _ _ _ _ _ _ _ Hinv).
+    - exact (li_head _ _ _ _ _ _ _ Hinv).
+    - unfold tipX in Hst. rewrite Hcs in Hst.
+      destruct (last (l_cache_bl s)) as [x|] eqn:E1.
+      2:{ apply last_None in E1. rewrite E1 in Hl1. unfold zlen in Hl1. cbn in Hl1. lia. }
+      destruct (last (abl (l_a s))) as [y|] eqn:E2.
+      2:{ apply last_None in E2. rewrite E2 in Hlen'. unfold zlen in Hlen'. cbn in Hlen'. lia. }
+      cbn in Hst. by rewrite Hst. }
+  rewrite Heq, zlist_eqb_refl. done.
 Qed.
 
-Lemma round_fresh s d s' out :
-  linv s -> fresh s -> l_flag s = 0 -> hon_round H fh p c tfilt s d ->
-  round H c s d = (s', out) -> fresh s' /\ l_flag s' = 0.
+Lemma round_flag_clear s d :
+  linv s -> c_height_only c = false -> l_flag (fst (round H c s d)) = l_flag s.
 Proof.
-  intros Hinv Hfr Hf0 Hhon Hr. unfold round in Hr.
-  destruct (l_panic s); [by injection Hr as <- _|].
-  change (match l_ph s with PDecide => decide_ph s | ph => ph end) with (eff_phase s) in Hr.
-  assert (Hatt : forall lastX, INTERVAL <= tipH s ->
-             attempt H c s (tipH s) lastX d = (s', out) -> fresh s' /\ l_flag s' = 0).
-  { intros lastX Ht Ha. unfold attempt in Ha.
-    pose proof (attempt_with_flag H c _ _ _ _ _ _ _ _ _ _ Ha) as Hfl.
-    assert (Hsf : stale_flag c s (tipH s) (fst (lists_of c s (tipH s) lastX d)) = 0 /\
-                  (fst (lists_of c s (tipH s) lastX d) = false -> l_cache_bl s = abl (l_a s))).
-    { unfold stale_flag, lists_of. cbn [fst].
-      destruct (min_checkpoint_height (l_cache s) <? tipH s) eqn:Er; cbn [negb andb]; [done|].
-      assert (Heq : l_cache_bl s = abl (l_a s)).
-      { destruct (li_cache _ _ _ _ _ Hinv) as [Hc|[Hc Hc1]].
-        { rewrite Hc in Er. cbn in Er. unfold INTERVAL in *. lia. }
-        destruct Hfr as [Hc0|[Heq|Hlt]]; [|done|].
-        { rewrite Hc0 in Er. cbn in Er. unfold INTERVAL in *. lia. }
-        exfalso. pose proof (proj2 (Hc _) eq_refl) as Hin.
-        pose proof (min_cp_le _ _ _ Hin) as Hm.
-        destruct (li_chain _ _ _ _ _ Hinv) as [_ Hlen].
-        rewrite tcps_length in Hm by (unfold INTERVAL in *; lia).
-        unfold INTERVAL in *.
-        pose proof (Z.mul_div_le (zlen (l_cache_bl s) - 1) 1000 ltac:(lia)).
-        pose proof (Z.div_pos (zlen (l_cache_bl s) - 1) 1000 ltac:(lia) ltac:(lia)).
-        rewrite u32_small in Hm by (unfold U32; lia). unfold tipH, hlen in *. lia. }
-      rewrite Heq, zlist_eqb_refl. done. }
-    destruct Hsf as [Hsf Heq]. rewrite Hsf in Hfl. split; [|done].
-    (* the new ghost chain is the present one, or the lists are gone *)
-    revert Ha. unfold attempt_with. rewrite (li_legacy _ _ _ _ _ Hinv).
-    set (cbl := if fst (lists_of c s (tipH s) lastX d) then abl (l_a s) else l_cache_bl s).
-    assert (Hcbl : cbl = abl (l_a s)).
-    { unfold cbl. destruct (fst (lists_of c s (tipH s) lastX d)) eqn:E; [done|by apply Heq]. }
-    destruct (_ && _); [intros [= <- _]; right; left; cbn; done|].
-    destruct (resolve_of H c s (tipH s) lastX d) as [bans res]. cbn [do_ban l_conn l_banned].
-    destruct res as [[|x l]|]; [intros [= <- _]; by left| |intros [= <- _]; by left].
-    destruct (get_checkpointed H (c_genesis c) (l_a s) (x :: l) _) as [[bans2 a'] pan] eqn:EG.
-    cbn [do_ban l_conn l_banned]. intros [= <- _]. right. left. cbn.
-    destruct (checkpointed_writes_full H _ _ _ _ _ _ _ EG) as (ms & _ & Hb & _). by rewrite Hb. }
-  assert (Hwait : wait_round H c s d = (s', out) -> fresh s' /\ l_flag s' = 0).
-  { intros Hw. unfold wait_round in Hw.
-    destruct (negb (wait_cond s)); [by injection Hw as <- _|].
-    destruct (hlen (l_a s) <? INTERVAL) eqn:El; [by injection Hw as <- _|].
-    apply (Hatt (default 0 (last (abl (l_a s))))); [unfold tipH; lia|exact Hw]. }
-  destruct (eff_phase s) as [|lh lx| |] eqn:Eph; [by apply Hwait| |by apply Hwait|].
-  - by destruct (eff_phase_retry H fh p c s lh lx Hinv).
-  - revert Hr. unfold tip_round. cbn [set_ph l_a l_conn l_cache l_banned l_synced l_cache_bl l_flag].
-    destruct (zlen (afl (l_a s)) =? zlen (abl (l_a s))); [by intros [= <- _]|].
+  intros Hinv Ho. unfold round. destruct (l_panic s); [done|].
+  change (match l_ph s with PDecide => decide_ph s | ph => ph end) with (eff_phase s).
+  assert (Hwait : l_flag (fst (wait_round H c s d)) = l_flag s).
+  { unfold wait_round. destruct (negb (wait_cond s)); [done|].
+    destruct (hlen (l_a s) <? INTERVAL) eqn:El; [done|]. unfold attempt.
+    change (hlen (l_a s)) with (tipH s) in *. change (default 0 (last (abl (l_a s)))) with (tipX s).
+    destruct (attempt_with _ _ _ _ _ _ _ _ _ _ _) as [s' out] eqn:E. cbn [fst].
+    rewrite (attempt_with_flag H c _ _ _ _ _ _ _ _ _ _ _ E).
+    unfold lists_of. cbn [fst]. apply stale_flag_clear; [done|done|lia]. }
+  destruct (eff_phase s) as [|lh lx| |] eqn:Eph; [done| |done|].
+  - by destruct (eff_phase_retry H fh parent g p c s lh lx Hinv).
+  - unfold tip_round. cbn [set_ph l_a l_conn l_cache l_cache_stop l_banned l_synced l_cache_bl l_flag].
+    destruct (zlen (afl (l_a s)) =? zlen (abl (l_a s))); [done|].
     destruct (get_uncheckpointed _ _ _) as [bans r]. cbn [do_ban l_conn l_banned].
-    destruct r as [| |m]; [by intros [= <- _]..|].
-    destruct (awrite_cf H (l_a s) m) as [a' [[hd ht]|]] eqn:EW; [|by intros [= <- _]].
-    intros [= <- _]. split; [|done]. unfold fresh in *. cbn.
-    destruct (awrite_cf_ok H _ _ _ _ _ EW) as (Hb & _). by rewrite Hb.
+    destruct r as [| |m]; try done. by destruct (awrite_cf H (l_a s) m) as [a' [?|]].
 Qed.
 
-Lemma chain_fresh s h xs syn :
-  fresh s -> raises s (EChain h xs syn) -> fresh (lstep H c s (EChain h xs syn)).
+(* every run keeps the invariant and the flag clear *)
+Theorem lrun_safe evs : forall s,
+  linv s -> c_height_only c = false -> l_flag s = 0 -> hon_run H p c s evs ev_ok ->
+  linv (lrun H c s evs) /\ l_flag (lrun H c s evs) = 0.
 Proof.
-  intros Hfr Hra. unfold fresh in *. cbn [lstep l_cache l_cache_bl l_a] in *.
-  destruct Hfr as [Hc|[Heq|Hlt]]; [by left|right..].
-  - destruct Hra as [-> | Hlt]; [by left|right]. by rewrite Heq.
-  - right. destruct Hra as [-> | Hlt2]; [done|]. lia.
-Qed.
-
-(* While every chain event raises the height of the tip, the re-query
-   condition of the code keeps the cached lists fresh: the flag stays clear
-   and the invariant holds. *)
-Theorem lrun_fresh evs : forall s,
-  linv s -> fresh s -> l_flag s = 0 ->
-  hon_run H p c s evs (fun s e => ev_ok s e /\ raises s e) ->
-  let s' := lrun H c s evs in linv s' /\ fresh s' /\ l_flag s' = 0.
-Proof.
-  induction evs as [|e evs IH]; intros s Hinv Hfr Hf0 Hrun; [done|].
-  cbn [lrun fold_left] in *. destruct Hrun as [[[Hwf Hhon] Hra] Hrun].
-  assert (Hstep : fresh (lstep H c s e) /\ l_flag (lstep H c s e) = 0).
-  { destruct e as [h xs syn|q|q|d].
-    - split; [by apply chain_fresh|done].
-    - cbn [lstep]. destruct (_ || _); done.
-    - done.
-    - cbn [lstep]. destruct (round H c s d) as [s1 out] eqn:Er. cbn [fst].
-      by apply (round_fresh s d s1 out). }
-  destruct Hstep as [Hfr' Hf0'].
+  induction evs as [|e evs IH]; intros s Hinv Ho Hf0 Hrun; [done|].
+  cbn [lrun fold_left] in *. destruct Hrun as [[Hwf Hhon] Hrun].
+  assert (Hf1 : l_flag (lstep H c s e) = 0).
+  { destruct e as [h xs syn|q|q|d]; cbn [lstep]; try done.
+    - by destruct (_ || _).
+    - by rewrite round_flag_clear. }
   apply IH; try done. by apply lstep_inv.
+Qed.
+
+(* ---------- the initial state ---------- *)
+Lemma linit_inv a conn syn :
+  wf_chain (abl a) -> parent_ok parent (abl a) -> head (abl a) = Some g ->
+  committed_true a -> c_genesis c = thd (abl a) 0 ->
+  c_legacy c = false -> c_cp c = None ->
+  linv (linit a conn syn) /\ l_flag (linit a conn syn) = 0.
+Proof.
+  intros Hwf Hp Hh Ht Hg Hl Hc. split; [|done].
+  constructor; cbn; try done; [tauto|tauto|by left].
 Qed.
 
 End T.
 
-(* ---------- the initial state ---------- *)
-Lemma linit_inv H fh p c a conn syn :
-  wf_chain (abl a) -> committed_true H fh a -> c_genesis c = thd H fh (abl a) 0 ->
-  c_legacy c = false -> c_cp c = None ->
-  linv H fh p c (linit a conn syn) /\ fresh (linit a conn syn) /\ l_flag (linit a conn syn) = 0.
-Proof.
-  intros Hwf Ht Hg Hl Hc. split; [|split; [by left|done]].
-  constructor; cbn; try done; [tauto|tauto|by left].
-Qed.
